@@ -25,6 +25,8 @@ pub mod sync {
     impl<T> View for Mutex<T> { type V = T; uninterp spec fn view(&self) -> T; }
     pub struct PoisonError { pub p: u8 }
     impl ::std::fmt::Debug for PoisonError { #[verifier::external_body] fn fmt(&self, f: &mut ::std::fmt::Formatter<'_>) -> ::std::fmt::Result { Ok(()) } }
+    /// std::sync::Arc: a transparent wrapper in the model
+    pub use ::std::sync::Arc;
     /// std::sync::OnceLock: WEAK - the stored value may come from any earlier initialisation in
     /// this process, so nothing is known about what `get_or_init` returns
     #[verifier::external_body]
